@@ -68,6 +68,7 @@ def _c18_reg():
             max_restarts=5,
             w_observer=0.1,
             measure_p=0.1,
+            declare_var_p=0.25,
         ),
         lambda: [c18.C18()],
         nontrivial_fn=c18.nontrivial,
